@@ -433,6 +433,19 @@ class Translator:
 
     def E_ImplicitCastExpr(self, n, cx):
         ck = n.get('castKind'); sub = n['inner'][0]
+        if ck == 'LValueToRValue' and self.cfg.get('read_hooks'):
+            m = sub
+            while m.get('kind') == 'ParenExpr': m = m['inner'][0]
+            if m.get('kind') == 'MemberExpr':
+                try:
+                    bt = self.ctype(self.qt(m['inner'][0]))
+                    rec = bt.elem.c if bt.cls == 'ptr' and bt.elem else bt.c
+                except Unsupported:
+                    rec = None
+                hook = self.cfg['read_hooks'].get(f'{rec}.{m.get("name")}')
+                if hook:
+                    # a READ of a shared field (rvalue use): goes through the spec's hook (default: the plain read)
+                    return f'{hook}({self.addr_of(m, cx)})'
         if ck in TRANSPARENT_CASTS:
             return self.E(sub, cx)
         if ck in ('UncheckedDerivedToBase', 'DerivedToBase'):
